@@ -199,9 +199,11 @@ Definition closed_with (code : N) (act : N) (t : N) (id : Z) (tr : trace) : bool
 
 Definition overrun_step (tr : trace) (s : ostate) (e : N * ev) : ostate :=
   let '(act, e) := e in
+  if os_dead s then s else
   match e with
   | Emit C2S t id k true => mkOs (os_streams s) (os_q s ++ [(t, (id, k))]) (os_fails s) (os_dead s)
-  | Stim StFail _ _ _ | Stim StCtxEnd _ _ _ | Stim StStop _ _ _ | ServeRet _ _ _ | NetSrvRet _ _ => mkOs (os_streams s) [] (os_fails s) true
+  | Stim StFail _ _ _ | Stim StCtxEnd _ _ _ | Stim StStop _ _ _ | Stim StChClose _ _ _ | ServeRet _ _ _ | NetSrvRet _ _ | ChanDone _ _ =>
+      mkOs (os_streams s) [] (os_fails s) true
   | Emit S2C t id (KClose _ _) _ =>
       match oget (t, id) (os_streams s) with
       | Some o => mkOs (oset (mkO (o_key o) (o_q o) false) (os_streams s)) (os_q s) (os_fails s) (os_dead s)
